@@ -8,6 +8,10 @@ package main
 //
 //	new <autocreate 0|1> <acl json hex>
 //	do <principal> <key> <need> <name,name,...>      need = action:resource[|action:resource]
+//
+// The principal and every name are percent-decoded (%XX), so that ids with '|', ':', '/', ' ', ',' … can be sent;
+// names in the `changed=` list of the answer are percent-encoded the same way (plain names are unchanged).
+// All `do` ops between two `new` lines go to the SAME handler (one broker, several principals).
 
 import (
 	"bufio"
@@ -44,9 +48,49 @@ func (s *verifC24S3) UploadSegment(ctx context.Context, key string, body []byte)
 }
 
 type verifC24Env struct {
-	h     *handler
-	store *metadata.InMemoryStore
-	s3    *verifC24S3
+	h      *handler
+	store  *metadata.InMemoryStore
+	s3     *verifC24S3
+	groups map[string]bool // every group named by a request of this session (their live state is snapshotted)
+}
+
+func verifC24Plain(c byte) bool {
+	return c >= 'a' && c <= 'z' || c >= 'A' && c <= 'Z' || c >= '0' && c <= '9' || c == '-' || c == '_' || c == '.' || c == '*'
+}
+
+func verifC24Esc(s string) string {
+	var sb strings.Builder
+	for i := 0; i < len(s); i++ {
+		if verifC24Plain(s[i]) {
+			sb.WriteByte(s[i])
+		} else {
+			fmt.Fprintf(&sb, "%%%02X", s[i])
+		}
+	}
+	return sb.String()
+}
+
+func verifC24Unesc(s string) string {
+	var sb strings.Builder
+	for i := 0; i < len(s); i++ {
+		if s[i] == '%' && i+2 < len(s) {
+			if b, err := hex.DecodeString(s[i+1 : i+3]); err == nil {
+				sb.WriteByte(b[0])
+				i += 2
+				continue
+			}
+		}
+		sb.WriteByte(s[i])
+	}
+	return sb.String()
+}
+
+// "topic:<name>" -> "topic:<escaped name>"
+func verifC24EscKey(k string) string {
+	if i := strings.IndexByte(k, ':'); i >= 0 {
+		return k[:i+1] + verifC24Esc(k[i+1:])
+	}
+	return k
 }
 
 var verifC24Topics = []string{"orders", "t1", "t2", "secret"}
@@ -65,7 +109,11 @@ func verifC24New(autocreate string, aclJSON string) *verifC24Env {
 	s3 := &verifC24S3{MemoryS3Client: storage.NewMemoryS3Client(), uploads: map[string]int{}}
 	h := newHandler(store, s3, brokerInfo, slog.New(slog.NewTextHandler(io.Discard, nil)))
 	verifC24Store = store
-	return &verifC24Env{h: h, store: store, s3: s3}
+	env := &verifC24Env{h: h, store: store, s3: s3, groups: map[string]bool{}}
+	for _, g := range verifC24Groups {
+		env.groups[g] = true
+	}
+	return env
 }
 
 // snapshot: resource name -> canonical description of everything the property speaks about
@@ -114,21 +162,30 @@ func (e *verifC24Env) snapshot() map[string]string {
 		out["group:"+g.GroupId] += fmt.Sprintf("stored(state=%s gen=%d members=%d)", g.State, g.GenerationId, len(g.Members))
 	}
 	dreq := kmsg.NewPtrDescribeGroupsRequest()
-	dreq.Groups = verifC24Groups
+	for g := range e.groups {
+		dreq.Groups = append(dreq.Groups, g)
+	}
+	sort.Strings(dreq.Groups)
 	if dresp, err := e.h.coordinator.DescribeGroups(ctx, dreq); err == nil {
 		for _, g := range dresp.Groups {
 			out["group:"+g.Group] += fmt.Sprintf(" live(state=%s members=%d err=%d)", g.State, len(g.Members), g.ErrorCode)
 		}
 	}
 	offs, _ := e.store.ListConsumerOffsets(ctx)
-	var os_ []string
+	// group names may contain any character: keep (group, text) apart instead of splitting a joined string
+	type commit struct{ group, text string }
+	var os_ []commit
 	for _, o := range offs {
-		os_ = append(os_, fmt.Sprintf("%s|%s/%d=%d", o.Group, o.Topic, o.Partition, o.Offset))
+		os_ = append(os_, commit{o.Group, fmt.Sprintf("%s/%d=%d", o.Topic, o.Partition, o.Offset)})
 	}
-	sort.Strings(os_)
+	sort.Slice(os_, func(i, j int) bool {
+		if os_[i].group != os_[j].group {
+			return os_[i].group < os_[j].group
+		}
+		return os_[i].text < os_[j].text
+	})
 	for _, o := range os_ {
-		g := strings.SplitN(o, "|", 2)
-		out["group:"+g[0]] += " commit(" + g[1] + ")"
+		out["group:"+o.group] += " commit(" + o.text + ")"
 	}
 	return out
 }
@@ -506,6 +563,13 @@ func verifC24Do(e *verifC24Env, principal string, key int16, need string, names 
 		allowed[i] = map[bool]string{true: "1", false: "0"}[ok]
 	}
 	exists := make([]string, len(names))
+	if prefix == "group:" {
+		for _, n := range names {
+			if n != "*" {
+				e.groups[n] = true
+			}
+		}
+	}
 	before := e.snapshot()
 	for i, n := range names {
 		_, ok := before[prefix+n]
@@ -527,6 +591,9 @@ func verifC24Do(e *verifC24Env, principal string, key int16, need string, names 
 		if !seen[k] {
 			changed = append(changed, k)
 		}
+	}
+	for i := range changed {
+		changed[i] = verifC24EscKey(changed[i])
 	}
 	sort.Strings(changed)
 	if err != nil {
@@ -571,7 +638,11 @@ func init() {
 			fmt.Fprintln(w, "new")
 		case f[0] == "do" && len(f) == 5 && env != nil:
 			k, _ := strconv.Atoi(f[2])
-			fmt.Fprintln(w, verifC24Do(env, f[1], int16(k), f[3], strings.Split(f[4], ",")))
+			names := strings.Split(f[4], ",")
+			for i := range names {
+				names[i] = verifC24Unesc(names[i])
+			}
+			fmt.Fprintln(w, verifC24Do(env, verifC24Unesc(f[1]), int16(k), f[3], names))
 		default:
 			fmt.Fprintln(w, "bad-op")
 		}
